@@ -64,7 +64,8 @@ H_NUMTERM = '''void harness(void) {
 def jobs_numterm():
     return [Job('isNumTerm.R', 'src/logics/ArithLogic.cc', 'opensmt::ArithLogic::isNumTerm', tier='R', header='contracts/C29/numterm.h', harness=H_NUMTERM, enforce=False, pre_includes=(),
                 stubs=('Pterm__op_index', 'Pterm__size', 'ArithLogic__isNumVarLike__PTRef', 'Logic__isConstant__PTRef', 'ArithLogic__isTimes__PTRef', 'ArithLogic__isNumVar__PTRef',
-                       'Logic__getPterm__PTRef', 'Logic__getPterm__PTRef_65755a'), opaque=('opensmt::ArithLogic', 'opensmt::Logic', 'opensmt::Pterm'), default_unwind=5, min_obligations=3,
+                       'Logic__getPterm__PTRef', 'Logic__getPterm__PTRef_65755a', 'ArithLogic__yieldsSortInt__PTRef', 'ArithLogic__yieldsSortReal__PTRef', 'ArithLogic__getTerm_IntOne', 'ArithLogic__getTerm_RealOne'),
+                opaque=('opensmt::ArithLogic', 'opensmt::Logic', 'opensmt::Pterm'), default_unwind=5, min_obligations=3,
                 proves='the linearity test accepts exactly variables, constants and constant*variable with two factors (products of three or more factors are non-linear)')]
 
 def info(tier, results):
